@@ -879,6 +879,27 @@ var (
 
 func (g *cssGen) nth() string { return rng.Pick(g.r, selNths...) }
 
+// selTruncCases: every pseudo-class name x "(" x an argument cut short by an unterminated comment /
+// string / escape / bracket or by the end of the input, bare and nested in other selectors
+// (selector.ParseGroup must return an error or a selector, never panic).
+var selTruncCases = func() []string {
+	names := []string{"is", "not", "has", "haschild", "where", "contains", "containsown", "containsOwn", "matches", "matchesown", "nth-child", "nth-last-child",
+		"nth-of-type", "nth-last-of-type", "lang", "first-child", "last-child", "first-of-type", "last-of-type", "only-child", "only-of-type", "input", "empty",
+		"root", "link", "enabled", "disabled", "checked", "visited", "hover", "active", "focus", "target", "before", "after", "first-letter", "unknown", "NOT", "CONTAINS", ""}
+	tails := []string{"", "/*", " /*", "/* x", " /* x", "/**", "/*/", "*/", "/", "\"", "\"a", "'a", "'", "\\", "a\\", "a", "a)", ")", "(", "[", "[a", "[a=", "[a=\"", "2n+1", "2n+1 /*", "2n+1 of /*",
+		"a /*", "a/*", "\"a\" /*", "\"a\"", "\"a\")", "\"a\" ) /*", "a,/*", "a, /* x", ":not(/*", ":contains(/*", "fr /*", "é", "\x00", "a b", "a > /*", "*|/*", "#", ".", ":", "::"}
+	wraps := []string{"%s", "p%s", ":not(%s", ":is(a,%s", "a > %s", "%s,b", "/**/%s", "::before%s", "a %s", "*|a%s"}
+	var out []string
+	for _, n := range names {
+		for _, t := range tails {
+			for _, w := range wraps {
+				out = append(out, fmt.Sprintf(w, ":"+n+"("+t))
+			}
+		}
+	}
+	return out
+}()
+
 func (g *cssGen) compound(depth int) string {
 	r := g.r
 	var b strings.Builder
@@ -2243,7 +2264,7 @@ func runSearchLocal(tier string, seed uint64, repo string, out *res.Result, iso 
 	svgRun := func(in string) bool { return runSVG(in, true) }
 	svgShrink := func(in string) bool { return runSVG(in, false) }
 
-	sepIdx := 0
+	sepIdx, selTruncIdx := 0, 0
 	groups := []group{
 		{name: "validate", n: 100000, base: func(r *rng.R) []job {
 			g := &cssGen{r, d}
@@ -2370,6 +2391,11 @@ func runSearchLocal(tier string, seed uint64, repo string, out *res.Result, iso 
 			return rng.Pick(g.r, colorLits...)
 		})},
 		{name: "selector", n: 30000, base: simple("selector", runSelector, func(g *cssGen) string { return g.selectorGroup(0) })},
+		{name: "selector-truncated", n: 2 * len(selTruncCases), batch: 8000, base: func(r *rng.R) []job {
+			c := selTruncCases[selTruncIdx%len(selTruncCases)]
+			selTruncIdx++
+			return one(job{op: "selector", body: c, run: runSelector})
+		}},
 		{name: "css-default", n: 30000, batch: 3000, base: simple("css-default", runCSSDefault, func(g *cssGen) string { return g.stylesheet(true) })},
 		{name: "svg-document", n: 30000, batch: 3000, base: func(r *rng.R) []job {
 			g := &svgGen{r, &cssGen{r, d}}
